@@ -7,8 +7,10 @@ import (
 	"github.com/yuin/goldmark/text"
 
 	"verif/cfg"
+	"verif/core"
 	"verif/oracle"
 	"verif/rw"
+	"verif/wl"
 )
 
 // Coverage-guided engine: FuzzOne evaluates one (selector, input) pair with the per-case oracle of a property.
@@ -44,17 +46,33 @@ func FuzzServes(id string) bool {
 	return false
 }
 
-// FuzzOne returns bad=true when the property's oracle rejects the execution. cfgName names the configuration that
-// was used (so that the case can be replayed through the property's Replay), script carries what Replay needs beyond
-// (config, input).
-func FuzzOne(id string, sel uint16, data []byte) (bad bool, cfgName, detail string, script any) {
+// FuzzResult is the verdict of one coverage-guided execution.
+type FuzzResult struct {
+	Bad    bool   `json:"bad"`
+	Config string `json:"config"`
+	Class  string `json:"class"`
+	Locus  string `json:"locus"`
+	Detail string `json:"detail"`
+	Script any    `json:"script,omitempty"`
+	// Input is what the oracle really evaluated (C08 and C11 first make the bytes eligible by substitution); it is the
+	// input to hand to the property's Replay.
+	Input []byte `json:"input"`
+}
+
+func (r *FuzzResult) reject(class, locus, detail string, script any) {
+	r.Bad, r.Class, r.Locus, r.Detail, r.Script = true, class, locus, detail, script
+}
+
+// FuzzOne evaluates one (selector, input) pair with the per-case oracle of property id.
+func FuzzOne(id string, sel uint16, data []byte) (res FuzzResult) {
+	res.Input = data
 	defer func() {
 		if p := recover(); p != nil {
 			// a panic of goldmark is C01's business; the other oracles treat the case as not evaluable
 			if id == "C01" {
-				bad, detail = true, "panic: "+fmt.Sprint(p)
+				res.reject("panic", stripDigits(fmt.Sprint(p)), "panic: "+fmt.Sprint(p), nil)
 			} else {
-				bad = false
+				res.Bad = false
 			}
 		}
 	}()
@@ -62,55 +80,60 @@ func FuzzOne(id string, sel uint16, data []byte) (bad bool, cfgName, detail stri
 	switch id {
 	case "C01":
 		spec := fzAll[s%len(fzAll)]
-		cfgName = spec.Name()
+		res.Config = spec.Name()
 		md := fzPool.Get(spec)
 		r := parseRender(md, data)
 		if r.Panic != nil {
-			return true, cfgName, "panic-" + r.Phase + ": " + panicLocus(r.Panic, r.Stack), nil
+			res.reject("panic-"+r.Phase, panicLocus(r.Panic, r.Stack), fmt.Sprintf("panic: %v\n%s", r.Panic, r.Stack), nil)
+			return
 		}
 		if r.Err != nil {
-			return true, cfgName, "error-with-good-writer: " + r.Err.Error(), nil
+			res.reject("error-with-good-writer", stripDigits(r.Err.Error()), r.Err.Error(), nil)
+			return
 		}
 		r2 := convert(md, data)
 		if r2.Panic != nil {
-			return true, cfgName, "panic-convert: " + panicLocus(r2.Panic, r2.Stack), nil
-		}
-		if r2.Err != nil {
-			return true, cfgName, "error-with-good-writer: " + r2.Err.Error(), nil
+			res.reject("panic-convert", panicLocus(r2.Panic, r2.Stack), fmt.Sprintf("panic: %v\n%s", r2.Panic, r2.Stack), nil)
+		} else if r2.Err != nil {
+			res.reject("error-with-good-writer", stripDigits(r2.Err.Error()), r2.Err.Error(), nil)
 		}
 	case "C03":
 		spec := fzSafe[s%len(fzSafe)]
-		cfgName = spec.Name()
-		res := parseRender(fzPool.Get(spec), data)
-		if !res.OK() {
+		res.Config = spec.Name()
+		out := parseRender(fzPool.Get(spec), data)
+		if !out.OK() {
 			return
 		}
-		if cl, lo, d := c03Verdict(spec, res.Out, nil); cl != "" {
-			return true, cfgName, cl + " " + lo + " " + d, nil
+		if cl, lo, d := c03Verdict(spec, out.Out, nil); cl != "" {
+			res.reject(cl, lo, d, nil)
 		}
 	case "C04":
 		spec := fzSafe[s%len(fzSafe)]
-		cfgName = spec.Name()
-		res := parseRender(fzPool.Get(spec), data)
-		if !res.OK() {
+		res.Config = spec.Name()
+		tw := spec
+		tw.Unsafe = true
+		_ = parseRender(fzPool.Get(tw), data)
+		out := parseRender(fzPool.Get(spec), data)
+		if !out.OK() {
 			return
 		}
-		urls, _ := c04Extract(res.Out)
+		urls, _ := c04Extract(out.Out)
 		for _, u := range urls {
 			if u.Scheme != "" {
-				return true, cfgName, fmt.Sprintf("<%s %s=%q> normalises to %q", u.Elem, u.Attr, u.Value, u.Norm), nil
+				res.reject("dangerous-url", u.Scheme+" in "+u.Elem+"/"+u.Attr, fmt.Sprintf("<%s %s=%q> normalises to %q", u.Elem, u.Attr, u.Value, u.Norm), nil)
+				return
 			}
 		}
 	case "C05":
 		spec := fzPSide[s%len(fzPSide)]
-		cfgName = spec.Name()
+		res.Config = spec.Name()
 		doc := fzPool.Get(spec).Parser().Parse(text.NewReader(data))
 		if ps := oracle.CheckAST(doc, data, nil); len(ps) > 0 {
-			return true, cfgName, "ast-" + ps[0].Class + " " + ps[0].Locus + ": " + ps[0].Detail, nil
+			res.reject("ast-"+ps[0].Class, ps[0].Locus, ps[0].Detail, nil)
 		}
 	case "C06":
 		spec := fzAll[s%len(fzAll)]
-		cfgName = spec.Name()
+		res.Config = spec.Name()
 		md := fzPool.Get(spec)
 		doc := md.Parser().Parse(text.NewReader(data))
 		var b1, b2, b3 bytes.Buffer
@@ -121,34 +144,37 @@ func FuzzOne(id string, sel uint16, data []byte) (bad bool, cfgName, detail stri
 		after := oracle.Snapshot(doc)
 		_ = md.Renderer().Render(&b2, data, doc)
 		if before != after {
-			return true, cfgName, "tree snapshot changed during Render", nil
+			res.reject("render-mutates-tree", "snapshot", "tree snapshot changed during Render", nil)
+			return
 		}
 		if !bytes.Equal(b1.Bytes(), b2.Bytes()) {
-			return true, cfgName, "second render of the same tree differs", nil
+			res.reject("render-mutates-tree", "second-render", "second render of the same tree differs", nil)
+			return
 		}
 		// the long-lived pooled instance (it has converted everything before) against an instance without history
 		if spec.Build().Convert(data, &b3) == nil && !bytes.Equal(b1.Bytes(), b3.Bytes()) {
-			return true, cfgName, "instance with history differs from a fresh instance", nil
+			res.reject("history-dependent-output", "pooled-vs-fresh", "instance with history differs from a fresh instance", nil)
 		}
 	case "C08":
 		spec := fzC08[s%len(fzC08)]
-		cfgName = spec.Name()
+		res.Config = spec.Name()
 		d := c08Sanitize(data)
 		if !c08Eligible(d) {
 			return
 		}
+		res.Input = d
 		n := 1 + (s/len(fzC08))%3
 		cl, lo, det, _, ok := c08Eval(fzPool.Get(spec), &c08Case{spec: spec, d: d, n: n})
 		if ok && cl != "" {
-			return true, cfgName, cl + " " + lo + " " + det, map[string]any{"n": n, "sanitized": string(d)}
+			res.reject(cl, lo, det, map[string]any{"n": n})
 		}
 	case "C10":
 		base := c10Base(s%cfg.NExt, (s/cfg.NExt)%2)
-		cfgName = base.Name()
-		g := fzGroups[cfgName]
+		res.Config = base.Name()
+		g := fzGroups[res.Config]
 		if g == nil {
 			g = c10Build(base)
-			fzGroups[cfgName] = g
+			fzGroups[res.Config] = g
 		}
 		deco := (s/(2*cfg.NExt))%4 == 0
 		rs, st := c10EvalMode(g, data, deco)
@@ -157,7 +183,7 @@ func FuzzOne(id string, sel uint16, data []byte) (bad bool, cfgName, detail stri
 			if deco {
 				lo = "decorated-tree:" + lo
 			}
-			return true, cfgName, rs[0].class + " " + lo + " " + rs[0].detail, map[string]any{"decorate": deco}
+			res.reject(rs[0].class, lo, rs[0].detail, nil)
 		}
 	case "C11":
 		e := c11Exts[s%len(c11Exts)]
@@ -176,18 +202,19 @@ func FuzzOne(id string, sel uint16, data []byte) (bad bool, cfgName, detail stri
 			a.Only = base
 			b.Only = append(append([]string{}, base...), e.name)
 		}
-		cfgName = b.Name()
+		res.Config = b.Name()
 		d := e.strip(data)
 		if c11HasTrigger(e.name, d) {
 			return
 		}
+		res.Input = d
 		cl, lo, det, ok := c11Eval(fzPool, a, b, d, nil, e.name)
 		if ok && cl != "" {
-			return true, cfgName, cl + " " + lo + " " + det, map[string]any{"without": a.Name(), "with": b.Name(), "extension": e.name, "stripped": string(d)}
+			res.reject(cl, lo, det, map[string]any{"without": a.Name(), "with": b.Name(), "extension": e.name})
 		}
 	case "C12":
 		spec := fzC12Sp[s%len(fzC12Sp)]
-		cfgName = spec.Name()
+		res.Config = spec.Name()
 		if fzC12 == nil {
 			buf, err := rw.New(1 << 17)
 			if err != nil {
@@ -206,29 +233,60 @@ func FuzzOne(id string, sel uint16, data []byte) (bad bool, cfgName, detail stri
 			cl, lo, det = c12CanaryPass(md, data, spare, mode)
 		}
 		if cl != "" && cl != "panic" {
-			return true, cfgName, cl + " " + lo + " " + det, map[string]any{"spare": spare, "mode": mode}
+			res.reject(cl, lo, det, map[string]any{"spare": spare, "mode": mode})
 		}
 	case "C15":
 		spec := fzC15[s%len(fzC15)]
-		cfgName = spec.Name()
+		res.Config = spec.Name()
 		x := c15Inspect(fzPool.Get(spec), data)
 		if x.ok && x.problem != "" {
-			return true, cfgName, x.problem + " " + x.detail, nil
+			res.reject(x.problem, x.locus, x.detail, nil)
 		}
 	case "C16":
 		spec := fzC16[s%len(fzC16)]
-		cfgName = spec.Name()
+		res.Config = spec.Name()
 		fs, _, _, st := c16Eval(fzPool.Get(spec), spec, data, nil)
 		if st == "ok" && len(fs) > 0 {
-			return true, cfgName, fs[0].class + " " + fs[0].locus + " " + fs[0].detail, nil
+			res.reject(fs[0].class, fs[0].locus, fs[0].detail, nil)
 		}
 	case "C17":
 		spec := fzC17[s%len(fzC17)]
-		cfgName = spec.Name()
+		res.Config = spec.Name()
 		fs, _, st := c17Eval(fzPool.Get(spec), spec, data, nil)
 		if st == "ok" && len(fs) > 0 {
-			return true, cfgName, fs[0].class + " " + fs[0].locus + " " + fs[0].detail, nil
+			res.reject(fs[0].class, fs[0].locus, fs[0].detail, nil)
 		}
 	}
 	return
+}
+
+// CovReplay runs this worker's share of the distilled corpus (wl.CovCorpus) through the per-case oracle, under k
+// configurations per input.  It is a deterministic stage of every served check.
+func CovReplay(c *core.Ctx, id string) {
+	if !FuzzServes(id) {
+		return
+	}
+	docs := wl.CovCorpus()
+	k := c.N(3, 24)
+	for i, d := range docs {
+		if !c.Mine(i) {
+			continue
+		}
+		for j := 0; j < k; j++ {
+			sel := uint16((i*7 + j*37 + int(c.Seed)*11) & 0xffff)
+			c.Begin("cov:"+fmt.Sprint(sel), d)
+			r := FuzzOne(id, sel, d)
+			c.End()
+			c.Eval()
+			c.Count("distilled_corpus_cases", 1)
+			if r.Bad {
+				if c.Seen(r.Class, r.Locus) {
+					c.Violation(&core.Violation{Class: r.Class, Locus: r.Locus, Config: r.Config, Input: r.Input})
+					continue
+				}
+				c.Violation(&core.Violation{Class: r.Class, Locus: r.Locus, Config: r.Config, Input: r.Input, Detail: r.Detail, Script: r.Script})
+			}
+		}
+		c.Count("distilled_corpus_inputs", 1)
+	}
 }
